@@ -233,3 +233,23 @@ Proof.
   cbv zeta. split; [vm_compute; discriminate|].
   exists [17; 46; 51; 68; 85; 102; 119; 136]. split; [discriminate | vm_compute; reflexivity].
 Qed.
+
+(* boundary of the CMAC form: bytes.fromhex skips white space, so the header
+   text of an accepted block need not be a whole number of blocks.  This block
+   (header text of 20 characters, 4 blanks before the encrypted key; produced
+   with psec's own helpers and accepted by psec) is accepted, yet its tag is
+   not the CMAC of header text ++ clear key data (the Spec does not open it):
+   there the accepted tag is [psec_mac_bd], K1 folded into the last 8 bytes of
+   the unpadded input followed by zero padding.  Producing it still requires
+   the KBAK; C02_accept_iff covers it. *)
+Example C02_white_space_boundary :
+  let s := [66; 48; 48; 56; 56; 80; 48; 84; 69; 48; 48; 78; 48; 49; 48; 48; 75; 83; 48; 52; 32; 32; 32; 32; 49; 53; 69; 48; 48; 70; 49; 57; 57; 69; 48; 48; 55; 57; 52; 68; 68; 51; 55; 55; 68; 51; 52; 66; 67; 65; 65; 70; 57; 50; 51; 53; 53; 70; 57; 54; 51; 67; 70; 49; 65; 52; 66; 51; 53; 68; 70; 70; 67; 65; 67; 53; 68; 68; 70; 69; 48; 67; 56; 48; 51; 55; 54; 66] in
+  header_load default_header s
+    = (mkHeader [cB] [80;48] [84] [69] [48;48] [78] [48;48] [([75;83], [])], Ok 20%nat) /\
+  unwrap real_tdes real_aes ex_kbpk s
+    = Ok (mkHeader [cB] [80;48] [84] [69] [48;48] [78] [48;48] [([75;83], [])], ex_key) /\
+  match bytes_fromhex (slice 24 48 s), bytes_fromhex (skipn 72 s) with
+  | Ok ek, Ok mac => spec_open_b real_tdes ex_kbpk (firstn 20 s) ek mac = None
+  | _, _ => False
+  end.
+Proof. vm_compute. repeat split; reflexivity. Qed.
